@@ -714,3 +714,796 @@ Lemma adjust_numbers_full c f g : adjust_feat c f = Ok g ->
                  lookup_last n (c_protos c) None <> None) /\
   (ftype f = T_sub -> exists n q, fq1 f = n :: q /\ fq1 g = [renum (c_first_sub c) n]).
 Proof. intros H. split; [exact (adjust_feat_keeps c f g H)|exact (adjust_numbers c f g H)]. Qed.
+
+(* ====================================================================================== *)
+(* the parent's annotations: _build_annotations writes only to objects it has allocated    *)
+(* ====================================================================================== *)
+Definition hrefs (d : list (Z * hval)) : list nat :=
+  flat_map (fun kv => match snd kv with HRef a => [a] | HOpaque _ => [] end) d.
+Definition refs (o : obj) : list nat :=
+  match o with OTop d => hrefs d | OSc d => map snd d | OTab _ => [] end.
+(* every address held by an object of e is at least n *)
+Definition fresh (n : nat) (e : heap) : Prop :=
+  Forall (fun o => Forall (fun a => (n <= a)%nat) (refs o)) e.
+
+Lemma fresh_mono n m e : (m <= n)%nat -> fresh n e -> fresh m e.
+Proof.
+  intros Hm H. unfold fresh in *. eapply Forall_impl; [|exact H].
+  intros o Ho. eapply Forall_impl; [|exact Ho]. cbn. intros; lia.
+Qed.
+
+Lemma fresh_app n a b : fresh n a -> fresh n b -> fresh n (a ++ b).
+Proof. intros Ha Hb. unfold fresh. apply Forall_app. split; assumption. Qed.
+
+Lemma nth_error_ext {A} (h e : list A) a o : nth_error h a = Some o -> nth_error (h ++ e) a = Some o.
+Proof.
+  intros H. rewrite nth_error_app1; [assumption|]. apply nth_error_Some. rewrite H. discriminate.
+Qed.
+
+Lemma nth_error_len {A} (h e : list A) o : nth_error (h ++ o :: e) (length h) = Some o.
+Proof. rewrite nth_error_app2 by lia. rewrite Nat.sub_diag. reflexivity. Qed.
+
+(* reading a tree is not affected by later allocations *)
+Lemma read_sc_ext h e : forall d s, read_sc h d = Some s -> read_sc (h ++ e) d = Some s.
+Proof.
+  induction d as [|[k a] d IH]; intros s H; cbn in *; [assumption|].
+  destruct (nth_error h a) as [[| |t]|] eqn:En; try discriminate.
+  destruct (read_sc h d) as [s'|] eqn:Er; [|discriminate].
+  rewrite (nth_error_ext _ e _ _ En), (IH _ eq_refl). assumption.
+Qed.
+
+Lemma read_entries_ext h e : forall d x, read_entries h d = Some x -> read_entries (h ++ e) d = Some x.
+Proof.
+  induction d as [|[k [v|a]] d IH]; intros x H; cbn in *; [assumption| |].
+  - destruct (read_entries h d) as [x'|]; [|discriminate]. rewrite (IH _ eq_refl). assumption.
+  - destruct (nth_error h a) as [[|ds|]|] eqn:En; try discriminate.
+    destruct (read_sc h ds) as [s|] eqn:Es; [|discriminate].
+    destruct (read_entries h d) as [x'|]; [|discriminate].
+    rewrite (nth_error_ext _ e _ _ En), (read_sc_ext _ e _ _ Es), (IH _ eq_refl). assumption.
+Qed.
+
+Lemma read_top_ext h e a x : read_top h a = Some x -> read_top (h ++ e) a = Some x.
+Proof.
+  unfold read_top. intros H. destruct (nth_error h a) as [[d| |]|] eqn:En; try discriminate.
+  rewrite (nth_error_ext _ e _ _ En). apply read_entries_ext. assumption.
+Qed.
+
+(* laying a tree out: only allocations, the new objects point to new objects, reading gives the tree back *)
+Lemma load_sc_spec n : forall s h h' d, load_sc h s = (h', d) ->
+  exists e, h' = h ++ e /\ fresh n e /\ Forall (fun ka => (length h <= snd ka)%nat) d /\
+            read_sc h' d = Some s.
+Proof.
+  induction s as [|[k t] s IH]; intros h h' d H; cbn in H.
+  - injection H as <- <-. exists []. rewrite app_nil_r. repeat split; constructor.
+  - destruct (load_sc (h ++ [OTab t]) s) as [h2 d2] eqn:El. injection H as <- <-.
+    destruct (IH _ _ _ El) as (e & -> & Hf & Hd & Hr).
+    exists (OTab t :: e). rewrite <- app_assoc. cbn [app]. split; [reflexivity|].
+    split; [constructor; [constructor|exact Hf]|]. split.
+    + constructor; [cbn; lia|]. eapply Forall_impl; [|exact Hd]. intros [k' a']. cbn.
+      rewrite app_length. cbn. lia.
+    + cbn. rewrite nth_error_len. rewrite <- app_assoc in Hr. cbn [app] in Hr. rewrite Hr. reflexivity.
+Qed.
+
+Lemma load_entries_spec : forall an h h' d, load_entries h an = (h', d) ->
+  exists e, h' = h ++ e /\ fresh (length h) e /\ Forall (fun a => (length h <= a)%nat) (hrefs d) /\
+            read_entries h' d = Some an.
+Proof.
+  induction an as [|[k [v|s]] an IH]; intros h h' d H; cbn in H.
+  - injection H as <- <-. exists []. rewrite app_nil_r. repeat split; constructor.
+  - destruct (load_entries h an) as [h1 d1] eqn:El. injection H as <- <-.
+    destruct (IH _ _ _ El) as (e & -> & Hf & Hd & Hr). exists e. repeat split; try assumption.
+    cbn. rewrite Hr. reflexivity.
+  - destruct (load_sc h s) as [h1 ds] eqn:Es.
+    destruct (load_entries (h1 ++ [OSc ds]) an) as [h3 d3] eqn:El. injection H as <- <-.
+    destruct (load_sc_spec (length h) _ _ _ _ Es) as (e1 & -> & Hf1 & Hd1 & Hr1).
+    destruct (IH _ _ _ El) as (e3 & -> & Hf3 & Hd3 & Hr3).
+    exists (e1 ++ OSc ds :: e3). split; [repeat rewrite <- app_assoc; reflexivity|].
+    assert (Hlen : (length h <= length ((h ++ e1) ++ [OSc ds]))%nat) by (repeat rewrite app_length; lia).
+    split; [|split].
+    + apply fresh_app; [exact Hf1|]. constructor.
+      * cbn. apply Forall_map. eapply Forall_impl; [|exact Hd1]. intros [k' a']. cbn. lia.
+      * eapply fresh_mono; [|exact Hf3]. exact Hlen.
+    + cbn. constructor; [rewrite app_length; lia|].
+      eapply Forall_impl; [|exact Hd3]. cbn. intros a Ha. lia.
+    + cbn. rewrite <- app_assoc. cbn [app]. rewrite nth_error_len.
+      rewrite <- app_assoc in Hr3. cbn [app] in Hr3. rewrite Hr3.
+      replace ((h ++ e1) ++ OSc ds :: e3) with ((h ++ e1) ++ (OSc ds :: e3)) by reflexivity.
+      rewrite (read_sc_ext _ (OSc ds :: e3) _ _ Hr1). reflexivity.
+Qed.
+
+Lemma load_top_spec an h h' a : load_top h an = (h', a) ->
+  exists e, h' = h ++ e /\ fresh (length h) e /\ (length h <= a)%nat /\ read_top h' a = Some an.
+Proof.
+  unfold load_top. destruct (load_entries h an) as [h1 d] eqn:El. cbn. intros H. injection H as <- <-.
+  destruct (load_entries_spec _ _ _ _ El) as (e & -> & Hf & Hd & Hr).
+  exists (e ++ [OTop d]). split; [rewrite app_assoc; reflexivity|]. split; [|split].
+  - apply fresh_app; [exact Hf|]. constructor; [exact Hd|constructor].
+  - rewrite app_length. lia.
+  - unfold read_top. rewrite nth_error_len. apply read_entries_ext. exact Hr.
+Qed.
+
+(* the invariant of _build_annotations: the heap is the heap at entry followed by objects that
+   only point to objects allocated since *)
+Definition inv (h cur : heap) : Prop := exists e, cur = h ++ e /\ fresh (length h) e.
+
+Lemma update_app_r (h : heap) : forall e a o, (length h <= a)%nat ->
+  update (h ++ e) a o = h ++ update e (a - length h) o.
+Proof.
+  induction h as [|x h IH]; intros e a o Ha; cbn.
+  - rewrite Nat.sub_0_r. reflexivity.
+  - destruct a as [|a]; [cbn in Ha; lia|]. cbn in Ha. cbn. f_equal. apply IH. lia.
+Qed.
+
+Lemma fresh_update n : forall e i o, fresh n e -> Forall (fun a => (n <= a)%nat) (refs o) ->
+  fresh n (update e i o).
+Proof.
+  induction e as [|x e IH]; intros i o He Ho; cbn; [destruct i; constructor|].
+  inversion He; subst. destruct i as [|i]; constructor; auto. apply IH; assumption.
+Qed.
+
+Lemma inv_len h cur : inv h cur -> (length h <= length cur)%nat.
+Proof. intros (e & -> & _). rewrite app_length. lia. Qed.
+
+Lemma inv_alloc h cur o : inv h cur -> Forall (fun a => (length h <= a)%nat) (refs o) ->
+  inv h (cur ++ [o]).
+Proof.
+  intros (e & -> & Hf) Ho. exists (e ++ [o]). split; [rewrite app_assoc; reflexivity|].
+  apply fresh_app; [exact Hf|]. constructor; [exact Ho|constructor].
+Qed.
+
+Lemma inv_update h cur a o : inv h cur -> (length h <= a)%nat ->
+  Forall (fun x => (length h <= x)%nat) (refs o) -> inv h (update cur a o).
+Proof.
+  intros (e & -> & Hf) Ha Ho. exists (update e (a - length h) o).
+  split; [apply update_app_r; exact Ha|]. apply fresh_update; assumption.
+Qed.
+
+Lemma inv_lookup h cur a o : inv h cur -> (length h <= a)%nat -> nth_error cur a = Some o ->
+  Forall (fun x => (length h <= x)%nat) (refs o).
+Proof.
+  intros (e & -> & Hf) Ha Hn. rewrite nth_error_app2 in Hn by exact Ha.
+  apply nth_error_In in Hn. unfold fresh in Hf. rewrite Forall_forall in Hf. apply Hf. exact Hn.
+Qed.
+
+Lemma assoc_hrefs k : forall d a, assoc k d = Some (HRef a) -> In a (hrefs d).
+Proof.
+  induction d as [|[k' v] d IH]; intros a H; cbn in H; [discriminate|].
+  unfold hrefs. cbn [flat_map]. apply in_or_app.
+  destruct (k' =? k).
+  - injection H as ->. left. cbn. auto.
+  - right. apply IH. exact H.
+Qed.
+
+Lemma assoc_snd k : forall (d : list (Z * nat)) a, assoc k d = Some a -> In a (map snd d).
+Proof.
+  induction d as [|[k' v] d IH]; intros a H; cbn in H; [discriminate|].
+  cbn. destruct (k' =? k); [injection H as ->; auto|right; apply IH; exact H].
+Qed.
+
+Lemma hrefs_app a b : hrefs (a ++ b) = hrefs a ++ hrefs b.
+Proof. unfold hrefs. apply flat_map_app. Qed.
+
+Lemma inv_tab_set h cur a k v cur' : inv h cur -> (length h <= a)%nat ->
+  tab_set cur a k v = Ok cur' -> inv h cur'.
+Proof.
+  unfold tab_set. intros Hi Ha H. destruct (nth_error cur a) as [[| |t]|]; try discriminate.
+  injection H as <-. apply inv_update; [exact Hi|exact Ha|constructor].
+Qed.
+
+(* a copy function is good when it only allocates and what it allocates is closed *)
+Definition copies_deeply (copy : heap -> nat -> res (heap * nat)) : Prop :=
+  forall h a h1 t, copy h a = Ok (h1, t) -> inv h h1 /\ (length h <= t)%nat.
+
+Lemma deepcopy_copies_deeply : copies_deeply deepcopy.
+Proof.
+  intros h a h1 t H. unfold deepcopy in H. destruct (read_top h a) as [an|]; [|discriminate].
+  injection H as H. destruct (load_top_spec _ _ _ _ H) as (e & -> & Hf & Ht & _).
+  split; [exists e; split; [reflexivity|exact Hf]|exact Ht].
+Qed.
+
+Lemma get_top_nth h a d : get_top h a = Ok d -> nth_error h a = Some (OTop d).
+Proof. unfold get_top. destruct (nth_error h a) as [[| |]|]; try discriminate. intros H; injection H as ->. reflexivity. Qed.
+Lemma get_sc_nth h a d : get_sc h a = Ok d -> nth_error h a = Some (OSc d).
+Proof. unfold get_sc. destruct (nth_error h a) as [[| |]|]; try discriminate. intros H; injection H as ->. reflexivity. Qed.
+
+Lemma build_annotations_inv copy r h orig h' top : copies_deeply copy ->
+  build_annotations_with copy r h orig = Ok (h', top) -> inv h h' /\ (length h <= top)%nat.
+Proof.
+  intros Hc H. unfold build_annotations_with in H.
+  destruct (copy h orig) as [[h1 t]|] eqn:Ec; cbn [bind] in H; [|discriminate].
+  destruct (Hc _ _ _ _ Ec) as [I1 Ht].
+  destruct (get_top h1 t) as [d|] eqn:Ed; cbn [bind] in H; [|discriminate].
+  pose proof (inv_lookup _ _ _ _ I1 Ht (get_top_nth _ _ _ Ed)) as Rd. cbn in Rd.
+  set (h2 := match assoc K_sc d with
+             | Some _ => h1
+             | None => let '(h'0, a) := alloc h1 (OSc []) in update h'0 t (OTop (d ++ [(K_sc, HRef a)]))
+             end) in H.
+  assert (I2 : inv h h2).
+  { subst h2. destruct (assoc K_sc d); [exact I1|]. cbn.
+    apply inv_update; [apply inv_alloc; [exact I1|constructor]|exact Ht|].
+    cbn. rewrite hrefs_app. apply Forall_app. split; [exact Rd|].
+    cbn. constructor; [apply inv_len; exact I1|constructor]. }
+  clearbody h2.
+  destruct (get_top h2 t) as [d2|] eqn:Ed2; cbn [bind] in H; [|discriminate].
+  pose proof (inv_lookup _ _ _ _ I2 Ht (get_top_nth _ _ _ Ed2)) as Rd2. cbn in Rd2.
+  destruct (assoc K_sc d2) as [[v|sc]|] eqn:Ea; cbn [bind] in H; try discriminate.
+  assert (Hsc : (length h <= sc)%nat).
+  { rewrite Forall_forall in Rd2. apply Rd2. eapply assoc_hrefs. exact Ea. }
+  destruct (get_sc h2 sc) as [ds|] eqn:Eds; cbn [bind] in H; [|discriminate].
+  pose proof (inv_lookup _ _ _ _ I2 Hsc (get_sc_nth _ _ _ Eds)) as Rds. cbn in Rds.
+  set (h3 := match assoc K_asdata ds with
+             | Some _ => h2
+             | None => let '(h'0, a) := alloc h2 (OTab []) in update h'0 sc (OSc (ds ++ [(K_asdata, a)]))
+             end) in H.
+  assert (I3 : inv h h3).
+  { subst h3. destruct (assoc K_asdata ds); [exact I2|]. cbn.
+    apply inv_update; [apply inv_alloc; [exact I2|constructor]|exact Hsc|].
+    cbn. rewrite map_app. apply Forall_app. split; [exact Rds|].
+    cbn. constructor; [apply inv_len; exact I2|constructor]. }
+  clearbody h3.
+  destruct (get_sc h3 sc) as [ds3|] eqn:Eds3; cbn [bind] in H; [|discriminate].
+  pose proof (inv_lookup _ _ _ _ I3 Hsc (get_sc_nth _ _ _ Eds3)) as Rds3. cbn in Rds3.
+  destruct (assoc K_asdata ds3) as [tab|] eqn:Et; cbn [bind] in H; [|discriminate].
+  assert (Htab : (length h <= tab)%nat).
+  { rewrite Forall_forall in Rds3. apply Rds3. eapply assoc_snd. exact Et. }
+  destruct (tab_set h3 tab K_note _) as [h4|] eqn:E4; cbn [bind] in H; [|discriminate].
+  destruct (tab_set h4 tab K_ostart _) as [h5|] eqn:E5; cbn [bind] in H; [|discriminate].
+  destruct (tab_set h5 tab K_oend _) as [h6|] eqn:E6; cbn [bind] in H; [|discriminate].
+  injection H as <- <-. split; [|exact Ht].
+  eapply inv_tab_set; [|exact Htab|exact E6].
+  eapply inv_tab_set; [|exact Htab|exact E5].
+  eapply inv_tab_set; [|exact Htab|exact E4]. exact I3.
+Qed.
+
+(* every object that existed before the call is what it was; new objects come after them *)
+Lemma annotations_frame r h orig h' top : build_annotations_heap r h orig = Ok (h', top) ->
+  (exists e, h' = h ++ e) /\ (length h <= top)%nat /\
+  forall a, (a < length h)%nat -> nth_error h' a = nth_error h a.
+Proof.
+  intros H. destruct (build_annotations_inv _ _ _ _ _ _ deepcopy_copies_deeply H) as [(e & -> & _) Ht].
+  split; [exists e; reflexivity|]. split; [exact Ht|].
+  intros a Ha. apply nth_error_app1. exact Ha.
+Qed.
+
+(* whatever could be read below any address before the call reads the same afterwards *)
+Lemma annotations_reads_kept r h orig h' top : build_annotations_heap r h orig = Ok (h', top) ->
+  forall a an, read_top h a = Some an -> read_top h' a = Some an.
+Proof.
+  intros H a an Hr. destruct (annotations_frame _ _ _ _ _ H) as [(e & ->) _]. apply read_top_ext. exact Hr.
+Qed.
+
+Lemma write_annotations_parent r an o : write_annotations r an = Ok o -> ao_parent o = Some an.
+Proof.
+  unfold write_annotations, write_annotations_with. destruct (load_top [] an) as [h0 root] eqn:El.
+  destruct (load_top_spec _ _ _ _ El) as (e & -> & _ & _ & Hr).
+  fold build_annotations_heap.
+  destruct (build_annotations_heap r ([] ++ e) root) as [[h1 top]|] eqn:Eb; cbn; [|discriminate].
+  intros H. injection H as <-. cbn. eapply annotations_reads_kept; [exact Eb|exact Hr].
+Qed.
+
+(* the whole bio-level record after the call: features and annotations are what they were *)
+Lemma write_rec_record_unchanged r sq feats an o : write_to_genbank_rec r sq feats an = Ok o ->
+  o_parent (o2_base o) = feats /\ ao_parent (o2_ann o) = Some an.
+Proof.
+  unfold write_to_genbank_rec. intros H.
+  destruct (write_to_genbank r sq feats) as [ob|] eqn:Ew; cbn in H; [|discriminate].
+  destruct (write_annotations r an) as [oa|] eqn:Ea; cbn in H; [|discriminate].
+  injection H as <-. cbn. split; [eapply write_parent_unchanged; exact Ew|eapply write_annotations_parent; exact Ea].
+Qed.
+
+Lemma load_read an h h' a : load_top h an = (h', a) ->
+  exists e, h' = h ++ e /\ (length h <= a)%nat /\ read_top h' a = Some an.
+Proof.
+  intros H. destruct (load_top_spec an h h' a H) as (e & He & _ & Ha & Hr). exists e. auto.
+Qed.
+
+(* ====================================================================================== *)
+(* what the region record's annotations are                                                *)
+(* ====================================================================================== *)
+Lemma update_length : forall (h : heap) a o, length (update h a o) = length h.
+Proof. induction h as [|x h IH]; intros [|a] o; cbn; auto. Qed.
+
+Lemma update_app_l : forall (h e : heap) a o, (a < length h)%nat ->
+  update (h ++ e) a o = update h a o ++ e.
+Proof.
+  induction h as [|x h IH]; intros e a o Ha; cbn in Ha; [lia|].
+  destruct a as [|a]; cbn; [reflexivity|]. f_equal. apply IH. lia.
+Qed.
+
+Lemma nth_update_eq : forall (h : heap) a o, (a < length h)%nat -> nth_error (update h a o) a = Some o.
+Proof.
+  induction h as [|x h IH]; intros a o Ha; cbn in Ha; [lia|].
+  destruct a as [|a]; cbn; [reflexivity|]. apply IH. lia.
+Qed.
+
+Lemma update_update : forall (h : heap) a x y, update (update h a x) a y = update h a y.
+Proof. induction h as [|z h IH]; intros [|a] x y; cbn; auto. f_equal. apply IH. Qed.
+
+Lemma update_at_len (h e : heap) x o : update (h ++ x :: e) (length h) o = h ++ o :: e.
+Proof. rewrite update_app_r by lia. rewrite Nat.sub_diag. reflexivity. Qed.
+
+(* the layout of a loaded tree depends on the heap only through its length ... *)
+Lemma load_sc_prefix : forall s (h g : heap), length h = length g -> forall h' d, load_sc h s = (h', d) ->
+  exists e, h' = h ++ e /\ load_sc g s = (g ++ e, d).
+Proof.
+  induction s as [|[k t] s IH]; intros h g Hl h' d H; cbn in H |- *.
+  - injection H as <- <-. exists []. repeat rewrite app_nil_r. auto.
+  - destruct (load_sc (h ++ [OTab t]) s) as [h2 d2] eqn:El. injection H as <- <-.
+    assert (Hl2 : length (h ++ [OTab t]) = length (g ++ [OTab t])) by (repeat rewrite app_length; cbn; lia).
+    destruct (IH (h ++ [OTab t]) (g ++ [OTab t]) Hl2 _ _ El) as (e & -> & Hg).
+    exists (OTab t :: e). rewrite Hg. repeat rewrite <- app_assoc. cbn [app]. rewrite Hl. auto.
+Qed.
+
+Lemma load_entries_prefix : forall an (h g : heap), length h = length g ->
+  forall h' d, load_entries h an = (h', d) -> exists e, h' = h ++ e /\ load_entries g an = (g ++ e, d).
+Proof.
+  induction an as [|[k [v|s]] an IH]; intros h g Hl h' d H; cbn in H |- *.
+  - injection H as <- <-. exists []. repeat rewrite app_nil_r. auto.
+  - destruct (load_entries h an) as [h1 d1] eqn:El. injection H as <- <-.
+    destruct (IH _ _ Hl _ _ El) as (e & -> & Hg). exists e. rewrite Hg. auto.
+  - destruct (load_sc h s) as [h1 ds] eqn:Es.
+    destruct (load_entries (h1 ++ [OSc ds]) an) as [h3 d3] eqn:El. injection H as <- <-.
+    destruct (load_sc_prefix _ _ _ Hl _ _ Es) as (e1 & -> & Hg1). rewrite Hg1. cbn.
+    assert (Hl2 : length ((h ++ e1) ++ [OSc ds]) = length ((g ++ e1) ++ [OSc ds]))
+      by (repeat rewrite app_length; cbn; lia).
+    destruct (IH _ _ Hl2 _ _ El) as (e3 & -> & Hg3).
+    rewrite Hg3. exists (e1 ++ OSc ds :: e3). repeat rewrite <- app_assoc. cbn [app].
+    repeat rewrite app_length. rewrite Hl. auto.
+Qed.
+
+(* ... and not at all on what the tables hold: loading the tree with another table in the place of
+   the one under key k is updating that table's object *)
+Lemma load_sc_set k t : forall s h h' ds, assoc k s = Some t -> load_sc h s = (h', ds) ->
+  exists a, assoc k ds = Some a /\ (a < length h')%nat /\ nth_error h' a = Some (OTab t) /\
+    forall t', load_sc h (dict_set k t' s) = (update h' a (OTab t'), ds).
+Proof.
+  induction s as [|[k0 t0] s IH]; intros h h' ds Ha H; cbn in Ha; [discriminate|]. cbn in H.
+  destruct (load_sc (h ++ [OTab t0]) s) as [h2 d2] eqn:El. injection H as <- <-.
+  destruct (k0 =? k) eqn:Ek.
+  - injection Ha as ->.
+    destruct (load_sc_spec 0 _ _ _ _ El) as (e & -> & _).
+    exists (length h). cbn. rewrite Ek. split; [reflexivity|]. split; [repeat rewrite app_length; cbn; lia|].
+    split; [rewrite <- app_assoc; apply nth_error_len|].
+    intros t'. cbn [dict_set]. try rewrite Ek. cbn.
+    assert (Hl2 : length (h ++ [OTab t]) = length (h ++ [OTab t'])) by (repeat rewrite app_length; reflexivity).
+    destruct (load_sc_prefix s _ _ Hl2 _ _ El) as (e' & He' & ->).
+    apply app_inv_head in He'. subst e'.
+    repeat rewrite <- app_assoc. cbn [app]. rewrite update_at_len. reflexivity.
+  - destruct (IH _ _ _ Ha El) as (a & Has & Hlt & Hn & Hset).
+    exists a. cbn. rewrite Ek. repeat split; try assumption.
+    intros t'. cbn [dict_set]. try rewrite Ek. cbn. rewrite Hset. reflexivity.
+Qed.
+
+Definition set_table (an : annots) (s : scomment) (t' : table) : annots :=
+  dict_set K_sc (TSc (dict_set K_asdata t' s)) an.
+
+Lemma load_entries_set s t : forall an h h' d,
+  assoc K_sc an = Some (TSc s) -> assoc K_asdata s = Some t -> load_entries h an = (h', d) ->
+  exists sc ds tab, assoc K_sc d = Some (HRef sc) /\ nth_error h' sc = Some (OSc ds) /\
+    assoc K_asdata ds = Some tab /\ (tab < length h')%nat /\ nth_error h' tab = Some (OTab t) /\
+    forall t', load_entries h (set_table an s t') = (update h' tab (OTab t'), d).
+Proof.
+  unfold set_table.
+  induction an as [|[k0 v0] an IH]; intros h h' d Ha Ht H; cbn in Ha; [discriminate|].
+  destruct (k0 =? K_sc) eqn:Ek.
+  - injection Ha as ->. cbn in H.
+    destruct (load_sc h s) as [h1 ds] eqn:Es.
+    destruct (load_entries (h1 ++ [OSc ds]) an) as [h3 d3] eqn:El. injection H as <- <-.
+    destruct (load_sc_set _ _ _ _ _ _ Ht Es) as (tab & Hat & Hlt & Hn & Hset).
+    destruct (load_entries_spec _ _ _ _ El) as (e3 & -> & _).
+    exists (length h1), ds, tab. cbn. rewrite Ek.
+    split; [reflexivity|]. split; [rewrite <- app_assoc; apply nth_error_len|].
+    split; [exact Hat|]. split; [repeat rewrite app_length; lia|].
+    split; [rewrite <- app_assoc; apply nth_error_ext; exact Hn|].
+    intros t'. cbn [dict_set]. try rewrite Ek. cbn. rewrite Hset. cbn. rewrite update_length.
+    assert (Hl2 : length (h1 ++ [OSc ds]) = length (update h1 tab (OTab t') ++ [OSc ds]))
+      by (repeat rewrite app_length; rewrite update_length; reflexivity).
+    destruct (load_entries_prefix an _ _ Hl2 _ _ El) as (e' & He' & ->).
+    apply app_inv_head in He'. subst e'.
+    repeat rewrite <- app_assoc. rewrite update_app_l by exact Hlt. reflexivity.
+  - destruct v0 as [v|s0]; cbn in H.
+    + destruct (load_entries h an) as [h1 d1] eqn:El. injection H as <- <-.
+      destruct (IH _ _ _ Ha Ht El) as (sc & ds & tab & H1 & H2 & H3 & H4 & H5 & H6).
+      exists sc, ds, tab. cbn. rewrite Ek. repeat split; try assumption.
+      intros t'. cbn [dict_set]. try rewrite Ek. cbn. rewrite H6. reflexivity.
+    + destruct (load_sc h s0) as [h1 ds0] eqn:Es.
+      destruct (load_entries (h1 ++ [OSc ds0]) an) as [h3 d3] eqn:El. injection H as <- <-.
+      destruct (IH _ _ _ Ha Ht El) as (sc & ds & tab & H1 & H2 & H3 & H4 & H5 & H6).
+      exists sc, ds, tab. cbn. rewrite Ek. repeat split; try assumption.
+      intros t'. cbn [dict_set]. try rewrite Ek. cbn. rewrite Es. cbn. rewrite H6. reflexivity.
+Qed.
+
+Lemma load_top_set s t an h h1 top :
+  assoc K_sc an = Some (TSc s) -> assoc K_asdata s = Some t -> load_top h an = (h1, top) ->
+  exists d sc ds tab, nth_error h1 top = Some (OTop d) /\ assoc K_sc d = Some (HRef sc) /\
+    nth_error h1 sc = Some (OSc ds) /\ assoc K_asdata ds = Some tab /\ (tab < length h1)%nat /\
+    nth_error h1 tab = Some (OTab t) /\
+    forall t', load_top h (set_table an s t') = (update h1 tab (OTab t'), top).
+Proof.
+  intros Ha Ht H. unfold load_top in H. destruct (load_entries h an) as [h' d] eqn:El.
+  cbn in H. injection H as <- <-.
+  destruct (load_entries_set _ _ _ _ _ _ Ha Ht El) as (sc & ds & tab & H1 & H2 & H3 & H4 & H5 & H6).
+  exists d, sc, ds, tab. split; [apply nth_error_len|].
+  split; [exact H1|]. split; [apply nth_error_ext; exact H2|]. split; [exact H3|].
+  split; [rewrite app_length; lia|]. split; [apply nth_error_ext; exact H5|].
+  intros t'. unfold load_top. rewrite H6. unfold alloc. rewrite update_length, update_app_l by exact H4. reflexivity.
+Qed.
+
+Lemma tab_set_update h a k v t : (a < length h)%nat -> nth_error h a = Some (OTab t) ->
+  tab_set h a k v = Ok (update h a (OTab (dict_set k v t))).
+Proof. intros _ Hn. unfold tab_set. rewrite Hn. reflexivity. Qed.
+
+(* the antiSMASH comment exists already (the case of main.write_outputs) *)
+Lemma build_annotations_present r h orig an s t h' top :
+  read_top h orig = Some an -> assoc K_sc an = Some (TSc s) -> assoc K_asdata s = Some t ->
+  build_annotations_heap r h orig = Ok (h', top) ->
+  read_top h' top = Some (set_table an s (expected_table r t)).
+Proof.
+  intros Hr Ha Ht H. unfold build_annotations_heap, build_annotations_with, deepcopy in H. rewrite Hr in H.
+  cbn [bind] in H. destruct (load_top h an) as [h1 tp] eqn:El.
+  destruct (load_top_set _ _ _ _ _ _ Ha Ht El) as (d & sc & ds & tab & Hd & Hsc & Hds & Htab & Hlt & Hn & Hset).
+  unfold get_top in H. rewrite Hd in H. cbn [bind] in H. rewrite Hsc in H. rewrite Hd in H. cbn [bind] in H.
+  rewrite Hsc in H. cbn [bind] in H. unfold get_sc in H. rewrite Hds in H. cbn [bind] in H. rewrite Htab in H.
+  rewrite Hds in H. cbn [bind] in H. rewrite Htab in H. cbn [bind] in H.
+  rewrite (tab_set_update _ _ _ _ _ Hlt Hn) in H. cbn [bind] in H.
+  rewrite (tab_set_update _ _ _ _ _ ltac:(rewrite update_length; exact Hlt) (nth_update_eq _ _ _ Hlt)) in H.
+  cbn [bind] in H. rewrite update_update in H.
+  rewrite (tab_set_update _ _ _ _ _ ltac:(rewrite update_length; exact Hlt) (nth_update_eq _ _ _ Hlt)) in H.
+  cbn [bind] in H. rewrite update_update in H. injection H as <- <-.
+  pose proof (Hset (expected_table r t)) as Hl.
+  destruct (load_top_spec _ _ _ _ Hl) as (e & _ & _ & _ & Hread). exact Hread.
+Qed.
+
+(* ---- reading and the dict operations ---- *)
+Lemma read_sc_assoc h k : forall ds s, read_sc h ds = Some s ->
+  match assoc k s with
+  | None => assoc k ds = None
+  | Some t => exists a, assoc k ds = Some a /\ nth_error h a = Some (OTab t)
+  end.
+Proof.
+  induction ds as [|[k0 a] ds IH]; intros s H; cbn in H.
+  - injection H as <-. reflexivity.
+  - destruct (nth_error h a) as [[| |t]|] eqn:En; try discriminate.
+    destruct (read_sc h ds) as [s'|] eqn:Er; [|discriminate]. injection H as <-. cbn.
+    destruct (k0 =? k); [exists a; auto|]. apply IH. reflexivity.
+Qed.
+
+Lemma read_entries_assoc h k : forall d an, read_entries h d = Some an ->
+  match assoc k an with
+  | None => assoc k d = None
+  | Some (TOpaque v) => assoc k d = Some (HOpaque v)
+  | Some (TSc s) => exists a ds, assoc k d = Some (HRef a) /\ nth_error h a = Some (OSc ds) /\
+                                 read_sc h ds = Some s
+  end.
+Proof.
+  induction d as [|[k0 [v|a]] d IH]; intros an H; cbn in H.
+  - injection H as <-. reflexivity.
+  - destruct (read_entries h d) as [x|] eqn:Er; [|discriminate]. injection H as <-. cbn.
+    destruct (k0 =? k); [reflexivity|]. apply IH. reflexivity.
+  - destruct (nth_error h a) as [[|ds|]|] eqn:En; try discriminate.
+    destruct (read_sc h ds) as [s|] eqn:Es; [|discriminate].
+    destruct (read_entries h d) as [x|] eqn:Er; [|discriminate]. injection H as <-. cbn.
+    destruct (k0 =? k); [exists a, ds; auto|]. apply IH. reflexivity.
+Qed.
+
+Lemma assoc_app_absent {V} k (v : V) : forall d, assoc k d = None -> assoc k (d ++ [(k, v)]) = Some v.
+Proof.
+  induction d as [|[k0 v0] d IH]; intros H; cbn in *; [rewrite Z.eqb_refl; reflexivity|].
+  destruct (k0 =? k); [discriminate|]. apply IH. exact H.
+Qed.
+
+Lemma dict_set_absent {V} k (v : V) : forall d, assoc k d = None -> dict_set k v d = d ++ [(k, v)].
+Proof.
+  induction d as [|[k0 v0] d IH]; intros H; cbn in *; [reflexivity|].
+  destruct (k0 =? k); [discriminate|]. f_equal. apply IH. exact H.
+Qed.
+
+Lemma read_sc_app h : forall a b x y, read_sc h a = Some x -> read_sc h b = Some y ->
+  read_sc h (a ++ b) = Some (x ++ y).
+Proof.
+  induction a as [|[k ad] a IH]; intros b x y Ha Hb; cbn in Ha |- *.
+  - injection Ha as <-. exact Hb.
+  - destruct (nth_error h ad) as [[| |t]|]; try discriminate.
+    destruct (read_sc h a) as [x'|] eqn:Er; [|discriminate]. injection Ha as <-.
+    rewrite (IH _ _ _ eq_refl Hb). reflexivity.
+Qed.
+
+Lemma read_entries_app h : forall a b x y, read_entries h a = Some x -> read_entries h b = Some y ->
+  read_entries h (a ++ b) = Some (x ++ y).
+Proof.
+  induction a as [|[k [v|ad]] a IH]; intros b x y Ha Hb; cbn in Ha |- *.
+  - injection Ha as <-. exact Hb.
+  - destruct (read_entries h a) as [x'|] eqn:Er; [|discriminate]. injection Ha as <-.
+    rewrite (IH _ _ _ eq_refl Hb). reflexivity.
+  - destruct (nth_error h ad) as [[|ds|]|]; try discriminate.
+    destruct (read_sc h ds) as [s|]; [|discriminate].
+    destruct (read_entries h a) as [x'|] eqn:Er; [|discriminate]. injection Ha as <-.
+    rewrite (IH _ _ _ eq_refl Hb). reflexivity.
+Qed.
+
+(* reading does not look at a structured-comment object it has no reference to *)
+Lemma read_sc_agree h h' sc dd : nth_error h sc = Some (OSc dd) ->
+  (forall a o, nth_error h a = Some o -> a <> sc -> nth_error h' a = Some o) ->
+  forall ds s, read_sc h ds = Some s -> read_sc h' ds = Some s.
+Proof.
+  intros Hsc Hag. induction ds as [|[k a] ds IH]; intros s H; cbn in H |- *; [exact H|].
+  destruct (nth_error h a) as [[| |t]|] eqn:En; try discriminate.
+  destruct (read_sc h ds) as [s'|] eqn:Er; [|discriminate].
+  assert (a <> sc) by (intros ->; rewrite Hsc in En; discriminate).
+  rewrite (Hag _ _ En H0), (IH _ eq_refl). exact H.
+Qed.
+
+Lemma read_entries_agree h h' sc dd : nth_error h sc = Some (OSc dd) ->
+  (forall a o, nth_error h a = Some o -> a <> sc -> nth_error h' a = Some o) ->
+  forall d x, read_entries h d = Some x -> ~ In sc (hrefs d) -> read_entries h' d = Some x.
+Proof.
+  intros Hsc Hag. induction d as [|[k [v|a]] d IH]; intros x H Hni; cbn in H |- *; [exact H| |].
+  - destruct (read_entries h d) as [x'|] eqn:Er; [|discriminate].
+    rewrite (IH _ eq_refl Hni). exact H.
+  - destruct (nth_error h a) as [[|ds|]|] eqn:En; try discriminate.
+    destruct (read_sc h ds) as [s|] eqn:Es; [|discriminate].
+    destruct (read_entries h d) as [x'|] eqn:Er; [|discriminate].
+    assert (a <> sc) by (intros ->; apply Hni; cbn; auto).
+    rewrite (Hag _ _ En H0), (read_sc_agree _ _ _ _ Hsc Hag _ _ Es), (IH _ eq_refl); [exact H|].
+    intros Hin. apply Hni. cbn. auto.
+Qed.
+
+(* ... and with another object in the place of the structured comment reads the tree with that
+   structured comment in the place of the old one *)
+Lemma read_entries_replace_sc h h' sc dd ds' s' : nth_error h sc = Some (OSc dd) ->
+  (forall a o, nth_error h a = Some o -> a <> sc -> nth_error h' a = Some o) ->
+  nth_error h' sc = Some (OSc ds') -> read_sc h' ds' = Some s' ->
+  forall d x, read_entries h d = Some x -> assoc K_sc d = Some (HRef sc) -> NoDup (hrefs d) ->
+  read_entries h' d = Some (dict_set K_sc (TSc s') x).
+Proof.
+  intros Hsc Hag Hn' Hr'. induction d as [|[k [v|a]] d IH]; intros x H Ha Hnd; cbn in H, Ha; [discriminate| |].
+  - destruct (read_entries h d) as [x'|] eqn:Er; [|discriminate]. injection H as <-.
+    cbn. destruct (k =? K_sc); [discriminate|]. rewrite (IH _ eq_refl Ha Hnd). reflexivity.
+  - destruct (nth_error h a) as [[|ds|]|] eqn:En; try discriminate.
+    destruct (read_sc h ds) as [s|] eqn:Es; [|discriminate].
+    destruct (read_entries h d) as [x'|] eqn:Er; [|discriminate]. injection H as <-.
+    cbn in Hnd. inversion Hnd as [|? ? Hni Hnd']; subst.
+    cbn. destruct (k =? K_sc) eqn:Ek.
+    + injection Ha as ->. rewrite Hn', Hr'.
+      rewrite (read_entries_agree _ _ _ _ Hsc Hag _ _ Er Hni). reflexivity.
+    + assert (a <> sc) by (intros ->; apply Hni; eapply assoc_hrefs; exact Ha).
+      rewrite (Hag _ _ En H), (read_sc_agree _ _ _ _ Hsc Hag _ _ Es), (IH _ eq_refl Ha Hnd'). reflexivity.
+Qed.
+
+Lemma load_entries_nodup : forall an h h' d, load_entries h an = (h', d) -> NoDup (hrefs d).
+Proof.
+  induction an as [|[k [v|s]] an IH]; intros h h' d H; cbn in H.
+  - injection H as <- <-. constructor.
+  - destruct (load_entries h an) as [h1 d1] eqn:El. injection H as <- <-. cbn. eapply IH. exact El.
+  - destruct (load_sc h s) as [h1 ds] eqn:Es.
+    destruct (load_entries (h1 ++ [OSc ds]) an) as [h3 d3] eqn:El. injection H as <- <-.
+    cbn. constructor; [|eapply IH; exact El].
+    destruct (load_entries_spec _ _ _ _ El) as (e & _ & _ & Hd & _).
+    intros Hin. rewrite Forall_forall in Hd. specialize (Hd _ Hin). rewrite app_length in Hd. cbn in Hd. lia.
+Qed.
+
+Lemma nth_update_neq : forall (h : heap) a b o, a <> b -> nth_error (update h a o) b = nth_error h b.
+Proof.
+  induction h as [|x h IH]; intros a b o Hab; destruct a as [|a]; destruct b as [|b]; cbn; auto; try lia.
+Qed.
+
+Lemma nth_error_plus {A} (h l : list A) i : nth_error (h ++ l) (length h + i) = nth_error l i.
+Proof. rewrite nth_error_app2 by lia. f_equal. lia. Qed.
+
+Lemma update_plus (h l : heap) i o : update (h ++ l) (length h + i) o = h ++ update l i o.
+Proof. rewrite update_app_r by lia. do 2 f_equal. lia. Qed.
+
+Lemma build_annotations_absent r h orig an h' top :
+  read_top h orig = Some an -> assoc K_sc an = None ->
+  build_annotations_heap r h orig = Ok (h', top) ->
+  read_top h' top = Some (an ++ [(K_sc, TSc [(K_asdata, expected_table r [])])]).
+Proof.
+  intros Hr Ha H. unfold build_annotations_heap, build_annotations_with, deepcopy in H. rewrite Hr in H.
+  cbn [bind] in H. unfold load_top in H. destruct (load_entries h an) as [g d] eqn:El.
+  destruct (load_entries_spec _ _ _ _ El) as (e & Hg & _ & _ & Hrd).
+  pose proof (read_entries_assoc g K_sc _ _ Hrd) as Hm. rewrite Ha in Hm.
+  unfold alloc in H. unfold get_top in H. rewrite nth_error_len in H. cbn [bind] in H.
+  rewrite Hm in H.
+  replace ((g ++ [OTop d]) ++ [OSc []]) with (g ++ [OTop d; OSc []]) in H by (rewrite <- app_assoc; reflexivity).
+  rewrite update_at_len in H. rewrite nth_error_len in H. cbn [bind] in H.
+  rewrite (assoc_app_absent K_sc _ d Hm) in H. cbn [bind] in H.
+  replace (length (g ++ [OTop d])) with (length g + 1)%nat in H by (rewrite app_length; reflexivity).
+  unfold get_sc in H.
+  rewrite nth_error_plus in H. cbn [nth_error bind assoc] in H.
+  replace ((g ++ [OTop (d ++ [(K_sc, HRef (length g + 1)%nat)]); OSc []]) ++ [OTab []])
+    with (g ++ [OTop (d ++ [(K_sc, HRef (length g + 1)%nat)]); OSc []; OTab []]) in H
+    by (rewrite <- app_assoc; reflexivity).
+  rewrite update_plus in H. cbn [update app] in H. rewrite nth_error_plus in H. cbn [nth_error bind assoc] in H.
+  rewrite Z.eqb_refl in H.
+  replace (length (g ++ [OTop (d ++ [(K_sc, HRef (length g + 1)%nat)]); OSc []])) with (length g + 2)%nat in H
+    by (rewrite app_length; reflexivity).
+  cbn [bind] in H. unfold tab_set in H. rewrite nth_error_plus in H. cbn [nth_error bind] in H.
+  rewrite update_plus in H. cbn [update] in H. rewrite nth_error_plus in H. cbn [nth_error bind] in H.
+  rewrite update_plus in H. cbn [update] in H. rewrite nth_error_plus in H. cbn [nth_error bind] in H.
+  rewrite update_plus in H. cbn [update] in H.
+  injection H as <- <-.
+  unfold read_top. rewrite nth_error_len.
+  apply read_entries_app.
+  - apply read_entries_ext. exact Hrd.
+  - cbn [read_entries]. rewrite nth_error_plus. cbn [nth_error read_sc]. rewrite nth_error_plus. cbn [nth_error].
+    reflexivity.
+Qed.
+
+(* structured comments, but none from antiSMASH: the table is made and added last *)
+Lemma build_annotations_no_table r h orig an s h' top :
+  read_top h orig = Some an -> assoc K_sc an = Some (TSc s) -> assoc K_asdata s = None ->
+  build_annotations_heap r h orig = Ok (h', top) ->
+  read_top h' top = Some (dict_set K_sc (TSc (s ++ [(K_asdata, expected_table r [])])) an).
+Proof.
+  intros Hr Ha Ht H. unfold build_annotations_heap, build_annotations_with, deepcopy in H. rewrite Hr in H.
+  cbn [bind] in H. unfold load_top in H. destruct (load_entries h an) as [g d] eqn:El.
+  destruct (load_entries_spec _ _ _ _ El) as (e & Hg & _ & _ & Hrd).
+  pose proof (load_entries_nodup _ _ _ _ El) as Hnd.
+  pose proof (read_entries_assoc g K_sc _ _ Hrd) as Hm. rewrite Ha in Hm.
+  destruct Hm as (sc & ds & Hsc & Hn & Hrs).
+  pose proof (read_sc_assoc g K_asdata _ _ Hrs) as Hm2. rewrite Ht in Hm2.
+  assert (Hlt : (sc < length g)%nat) by (apply nth_error_Some; rewrite Hn; discriminate).
+  unfold alloc in H. unfold get_top in H. rewrite nth_error_len in H. cbn [bind] in H.
+  rewrite Hsc in H. rewrite nth_error_len in H. cbn [bind] in H. rewrite Hsc in H. cbn [bind] in H.
+  unfold get_sc in H. rewrite (nth_error_ext g [OTop d] _ _ Hn) in H. cbn [bind] in H. rewrite Hm2 in H.
+  set (X := OSc (ds ++ [(K_asdata, length (g ++ [OTop d]))])) in H.
+  rewrite <- app_assoc in H. cbn [app] in H. rewrite update_app_l in H by exact Hlt.
+  set (G := update g sc X) in H.
+  assert (HG : length G = length g) by apply update_length.
+  assert (HGsc : nth_error G sc = Some X) by (apply nth_update_eq; exact Hlt).
+  rewrite (nth_error_ext G _ _ _ HGsc) in H. unfold X in H. cbn [bind] in H.
+  rewrite (assoc_app_absent K_asdata _ ds Hm2) in H. cbn [bind] in H.
+  replace (length (g ++ [OTop d])) with (length G + 1)%nat in * by (rewrite app_length, HG; reflexivity).
+  unfold tab_set in H. rewrite nth_error_plus in H. cbn [nth_error bind] in H.
+  rewrite update_plus in H. cbn [update] in H. rewrite nth_error_plus in H. cbn [nth_error bind] in H.
+  rewrite update_plus in H. cbn [update] in H. rewrite nth_error_plus in H. cbn [nth_error bind] in H.
+  rewrite update_plus in H. cbn [update] in H.
+  injection H as <- <-.
+  unfold read_top. rewrite <- HG. rewrite nth_error_len.
+  assert (Hag : forall a o, nth_error g a = Some o -> a <> sc ->
+                nth_error (G ++ [OTop d; OTab (expected_table r [])]) a = Some o).
+  { intros a o Hao Hne. apply nth_error_ext. unfold G. rewrite nth_update_neq by auto. exact Hao. }
+  eapply read_entries_replace_sc with (h := g) (sc := sc).
+  - exact Hn.
+  - exact Hag.
+  - apply nth_error_ext. exact HGsc.
+  - apply read_sc_app.
+    + eapply read_sc_agree; [exact Hn|exact Hag|exact Hrs].
+    + cbn [read_sc]. replace (length (g ++ [OTop d])) with (length G + 1)%nat by (rewrite app_length, HG; reflexivity).
+      rewrite nth_error_plus. cbn [nth_error]. reflexivity.
+  - exact Hrd.
+  - exact Hsc.
+  - exact Hnd.
+Qed.
+
+(* a structured_comment annotation that is not a dict: AttributeError *)
+Lemma build_annotations_opaque r h orig an v :
+  read_top h orig = Some an -> assoc K_sc an = Some (TOpaque v) ->
+  build_annotations_heap r h orig = Err E_Attribute.
+Proof.
+  intros Hr Ha. unfold build_annotations_heap, build_annotations_with, deepcopy. rewrite Hr.
+  cbn [bind]. unfold load_top. destruct (load_entries h an) as [g d] eqn:El.
+  destruct (load_entries_spec _ _ _ _ El) as (e & Hg & _ & _ & Hrd).
+  pose proof (read_entries_assoc g K_sc _ _ Hrd) as Hm. rewrite Ha in Hm.
+  unfold alloc, get_top. rewrite nth_error_len. cbn [bind]. rewrite Hm. rewrite nth_error_len. cbn [bind].
+  rewrite Hm. reflexivity.
+Qed.
+
+Lemma assoc_dict_set_same {V} k (v : V) : forall d, assoc k (dict_set k v d) = Some v.
+Proof.
+  induction d as [|[k0 v0] d IH]; cbn; [rewrite Z.eqb_refl; reflexivity|].
+  destruct (k0 =? k) eqn:E; cbn; rewrite E; [reflexivity|exact IH].
+Qed.
+
+(* the region record's annotations, in every case in which the call returns *)
+Lemma build_annotations_result r h orig an h' top : read_top h orig = Some an ->
+  build_annotations_heap r h orig = Ok (h', top) -> read_top h' top = Some (expected_annots r an).
+Proof.
+  intros Hr H. unfold expected_annots, expected_sc, parent_sc.
+  destruct (assoc K_sc an) as [[v|s]|] eqn:Ea.
+  - rewrite (build_annotations_opaque _ _ _ _ _ Hr Ea) in H. discriminate.
+  - destruct (assoc K_asdata s) as [t|] eqn:Et.
+    + exact (build_annotations_present _ _ _ _ _ _ _ _ Hr Ea Et H).
+    + rewrite (dict_set_absent K_asdata _ s Et). exact (build_annotations_no_table _ _ _ _ _ _ _ Hr Ea Et H).
+  - cbn [dict_set]. rewrite (dict_set_absent K_sc _ an Ea). exact (build_annotations_absent _ _ _ _ _ _ Hr Ea H).
+Qed.
+
+Lemma write_annotations_file r an o : write_annotations r an = Ok o ->
+  ao_file o = Some (expected_annots r an) /\ file_sc o = Some (expected_sc r an).
+Proof.
+  unfold write_annotations, write_annotations_with. destruct (load_top [] an) as [h0 root] eqn:El.
+  destruct (load_top_spec _ _ _ _ El) as (e & -> & _ & _ & Hr).
+  fold build_annotations_heap.
+  destruct (build_annotations_heap r ([] ++ e) root) as [[h1 top]|] eqn:Eb; cbn [bind]; [|discriminate].
+  intros H. injection H as <-. unfold file_sc. cbn [ao_file].
+  rewrite (build_annotations_result _ _ _ _ _ _ Hr Eb). split; [reflexivity|].
+  unfold expected_annots, parent_sc at 1. rewrite assoc_dict_set_same. reflexivity.
+Qed.
+
+(* the call returns unless structured_comment is not a dict *)
+Lemma write_annotations_total r an : (forall v, assoc K_sc an <> Some (TOpaque v)) ->
+  exists o, write_annotations r an = Ok o.
+Proof.
+  intros Hno. unfold write_annotations, write_annotations_with. destruct (load_top [] an) as [h0 root] eqn:El.
+  destruct (load_top_spec _ _ _ _ El) as (e & -> & _ & _ & Hr).
+  fold build_annotations_heap.
+  destruct (build_annotations_heap r ([] ++ e) root) as [[h1 top]|k] eqn:Eb; cbn [bind]; [eexists; reflexivity|].
+  exfalso. revert Eb. unfold build_annotations_heap, build_annotations_with, deepcopy. rewrite Hr.
+  cbn [bind]. unfold load_top. destruct (load_entries ([] ++ e) an) as [g d] eqn:El2.
+  destruct (load_entries_spec _ _ _ _ El2) as (e2 & Hg & _ & _ & Hrd).
+  pose proof (read_entries_assoc g K_sc _ _ Hrd) as Hm.
+  unfold alloc, get_top. rewrite nth_error_len. cbn [bind].
+  destruct (assoc K_sc an) as [[v|s]|] eqn:Ea.
+  - exfalso. eapply Hno. reflexivity.
+  - destruct Hm as (sc & ds & Hsc & Hn & Hrs). rewrite Hsc. rewrite nth_error_len. cbn [bind]. rewrite Hsc.
+    cbn [bind]. unfold get_sc. rewrite (nth_error_ext g [OTop d] _ _ Hn). cbn [bind].
+    assert (Hlt : (sc < length g)%nat) by (apply nth_error_Some; rewrite Hn; discriminate).
+    destruct (assoc K_asdata ds) as [tab|] eqn:Et.
+    + rewrite (nth_error_ext g [OTop d] _ _ Hn). cbn [bind]. rewrite Et. cbn [bind].
+      pose proof (read_sc_assoc g K_asdata _ _ Hrs) as Hm2.
+      destruct (assoc K_asdata s) as [t|] eqn:Ets; [|rewrite Hm2 in Et; discriminate].
+      destruct Hm2 as (a & Ha2 & Hna). rewrite Et in Ha2. injection Ha2 as <-.
+      assert (Hlt2 : (tab < length (g ++ [OTop d]))%nat)
+        by (apply nth_error_Some; rewrite (nth_error_ext g [OTop d] _ _ Hna); discriminate).
+      rewrite (tab_set_update _ _ _ _ _ Hlt2 (nth_error_ext g [OTop d] _ _ Hna)). cbn [bind].
+      rewrite (tab_set_update _ _ _ _ _ ltac:(rewrite update_length; exact Hlt2) (nth_update_eq _ _ _ Hlt2)).
+      cbn [bind]. rewrite update_update.
+      rewrite (tab_set_update _ _ _ _ _ ltac:(rewrite update_length; exact Hlt2) (nth_update_eq _ _ _ Hlt2)).
+      cbn [bind]. discriminate.
+    + rewrite <- app_assoc. cbn [app]. rewrite update_app_l by exact Hlt.
+      pose proof (nth_update_eq g sc (OSc (ds ++ [(K_asdata, length (g ++ [OTop d]))])) Hlt) as HGsc.
+      set (G := update g sc (OSc (ds ++ [(K_asdata, length (g ++ [OTop d]))]))) in *.
+      assert (HG : length G = length g) by apply update_length.
+      rewrite (nth_error_ext G _ _ _ HGsc). cbn [bind].
+      rewrite (assoc_app_absent K_asdata _ ds Et). cbn [bind].
+      replace (length (g ++ [OTop d])) with (length G + 1)%nat by (rewrite app_length, HG; reflexivity).
+      unfold tab_set. rewrite nth_error_plus. cbn [nth_error bind].
+      rewrite update_plus. cbn [update]. rewrite nth_error_plus. cbn [nth_error bind].
+      rewrite update_plus. cbn [update]. rewrite nth_error_plus. cbn [nth_error bind]. discriminate.
+  - rewrite Hm.
+    replace ((g ++ [OTop d]) ++ [OSc []]) with (g ++ [OTop d; OSc []]) by (rewrite <- app_assoc; reflexivity).
+    rewrite update_at_len. rewrite nth_error_len. cbn [bind].
+    rewrite (assoc_app_absent K_sc _ d Hm). cbn [bind].
+    replace (length (g ++ [OTop d])) with (length g + 1)%nat by (rewrite app_length; reflexivity).
+    unfold get_sc. rewrite nth_error_plus. cbn [nth_error bind assoc].
+    replace ((g ++ [OTop (d ++ [(K_sc, HRef (length g + 1)%nat)]); OSc []]) ++ [OTab []])
+      with (g ++ [OTop (d ++ [(K_sc, HRef (length g + 1)%nat)]); OSc []; OTab []])
+      by (rewrite <- app_assoc; reflexivity).
+    rewrite update_plus. cbn [update app]. rewrite nth_error_plus. cbn [nth_error bind assoc].
+    rewrite Z.eqb_refl.
+    replace (length (g ++ [OTop (d ++ [(K_sc, HRef (length g + 1)%nat)]); OSc []])) with (length g + 2)%nat
+      by (rewrite app_length; reflexivity).
+    cbn [bind]. unfold tab_set. rewrite nth_error_plus. cbn [nth_error bind].
+    rewrite update_plus. cbn [update]. rewrite nth_error_plus. cbn [nth_error bind].
+    rewrite update_plus. cbn [update]. rewrite nth_error_plus. cbn [nth_error bind]. discriminate.
+Qed.
+
+Lemma write_rec_file_annotations r sq feats an o : write_to_genbank_rec r sq feats an = Ok o ->
+  ao_file (o2_ann o) = Some (expected_annots r an) /\ file_sc (o2_ann o) = Some (expected_sc r an).
+Proof.
+  unfold write_to_genbank_rec. intros H.
+  destruct (write_to_genbank r sq feats) as [ob|] eqn:Ew; cbn in H; [|discriminate].
+  destruct (write_annotations r an) as [oa|] eqn:Ea; cbn in H; [|discriminate].
+  injection H as <-. cbn. eapply write_annotations_file. exact Ea.
+Qed.
+
+(* the table of the file: the parent's entries in their order, NOTE in the place of an older NOTE *)
+Lemma expected_table_entries r t :
+  assoc K_note (expected_table r t) = Some (V_note, if crosses r then 1 else 0) /\
+  assoc K_ostart (expected_table r t) = Some (V_int, rstart r) /\
+  assoc K_oend (expected_table r t) = Some (V_int, rend r) /\
+  forall k, k <> K_note -> k <> K_ostart -> k <> K_oend -> assoc k (expected_table r t) = assoc k t.
+Proof.
+  assert (Hother : forall {V} k k' (v : V) d, k <> k' -> assoc k (dict_set k' v d) = assoc k d).
+  { intros V k k' v. induction d as [|[k0 v0] d IH]; intros Hne; cbn.
+    - destruct (k' =? k) eqn:E; [apply Z.eqb_eq in E; congruence|reflexivity].
+    - destruct (k0 =? k') eqn:E; cbn.
+      + apply Z.eqb_eq in E. subst k0. destruct (k' =? k) eqn:E2; [apply Z.eqb_eq in E2; congruence|reflexivity].
+      + destruct (k0 =? k); [reflexivity|]. apply IH. exact Hne. }
+  unfold expected_table. repeat split.
+  - rewrite Hother by (unfold K_note, K_oend; lia). rewrite Hother by (unfold K_note, K_ostart; lia).
+    apply assoc_dict_set_same.
+  - rewrite Hother by (unfold K_ostart, K_oend; lia). apply assoc_dict_set_same.
+  - apply assoc_dict_set_same.
+  - intros k H1 H2 H3. rewrite Hother by exact H3. rewrite Hother by exact H2. apply Hother. exact H1.
+Qed.
